@@ -536,11 +536,30 @@ def insertSchemaRows : List FieldDef → Bytes → Nat → SM Unit
       insertSchemaRows rest name bt.root
     else insertSchemaRows rest name root
 
+/-- `checkCatalogRows`: the `sys_pages` row and the `sys_schema` rows of a new table are encoded
+before anything is changed; the first that fails to encode or does not fit a page cell is the error -/
+def checkCatalogRows (fields : List FieldDef) (name : Bytes) : Option SErr :=
+  let rows : List (List FieldDef × Vals) :=
+    (pageTableSchema, [("table_name", Val.str name), ("file_offset", Val.int 0)]) ::
+    fields.map fun fd => (schemaTableSchema,
+      [("table_name", Val.str name), ("field_name", strOf fd.name),
+       ("field_type", Val.int (match fd.ty with | .int => 0 | .varchar => 1 | .boolean => 2 | .bigint => 3)),
+       ("field_length", Val.int fd.len)])
+  rows.findSome? fun (sch, m) =>
+    match encodeTuple sch m with
+    | .ok b => if b.length > c_maxValueSize then some .rowTooLarge else none
+    | .error .typeMismatch => some .typeMismatch
+    | .error .intOutOfRange => some .intOutOfRange
+    | .error .decode => some .decode
+
 /-- `RelationService.CreateTable` (the flush's page write order is supplied) -/
 def createTable (fields : List FieldDef) (name : Bytes) (flushOrder : List Nat) (doFlush : Bool := true) : SM Unit := fun s =>
   match relationOffset name s with
   | .err .tableNotExist s1 =>
     if fields.any (fun fd => fd.len > 2147483647 || fd.len < -2147483648) then .err .intOutOfRange s1 else
+    match checkCatalogRows fields name with
+    | some e => .err e s1
+    | none =>
     (do
       let pgOff ← appendNode (.leaf ⟨0, 0, false, false, 0, 0, []⟩) true
       insertPageTable pgOff name
